@@ -73,13 +73,20 @@ def gcc_expand(cases):
 
 
 def cbi_expand(defs, inv):
-    plat = Platform("p", "/")
-    for dline in defs:
-        node = preprocessor.DirectiveParser(preprocessor.Lexer(dline).tokenize()).parse()
-        node.evaluate_for_platform(platform=plat, filename="x.c", state=None)
-    toks = preprocessor.Lexer(inv).tokenize()
-    out = preprocessor.MacroExpander(plat).expand(toks)
-    return [str(t) for t in out]
+    # the directive nodes of a file are parsed once and evaluated once per platform / translation unit that reaches
+    # them: the expansion must be the same every time (nothing a first evaluation leaves behind in the shared nodes
+    # may change a later one)
+    nodes = [preprocessor.DirectiveParser(preprocessor.Lexer(dline).tokenize()).parse() for dline in defs]
+    outs = []
+    for name in ("p", "q"):
+        plat = Platform(name, "/")
+        for node in nodes:
+            node.evaluate_for_platform(platform=plat, filename="x.c", state=None)
+        toks = preprocessor.Lexer(inv).tokenize()
+        outs.append([str(t) for t in preprocessor.MacroExpander(plat).expand(toks)])
+    if outs[0] != outs[1]:
+        raise AssertionError(f"the same definitions evaluated for a second platform expand differently: {outs[0]} then {outs[1]}")
+    return outs[0]
 
 
 def relex(text):
